@@ -68,3 +68,14 @@ Definition mrun (K n : nat) (cs : list mchoice) : msys := fold_left mstep cs (mi
 End Policy.
 
 Definition mholding (s : msys) (p : nat) : bool := match mget s p with MHolding => true | _ => false end.
+
+(* What the resolver hands to bind_all: a list of socket addresses in which one address may occur more than once (a host name entered
+   twice in the hosts file).  [dedup] = true: repeats are bound once (code now); false: every list entry is bound (the first version
+   of bind_all).  A lone process, nobody else alive: binding an address it already holds fails with AddrInUse on its own listener. *)
+Fixpoint bind_list (held : list nat) (addrs : list nat) : bool :=
+  match addrs with
+  | [] => true
+  | a :: r => if existsb (Nat.eqb a) held then false else bind_list (a :: held) r
+  end.
+Definition acquire_alone (dedup : bool) (resolved : list nat) : bool :=
+  bind_list [] (if dedup then nodup Nat.eq_dec resolved else resolved).
